@@ -519,8 +519,12 @@ func chunkUploader(ctx context.Context,
 
 			// iterate over all deduplicated keys from KV and upload the index file
 			// NOTE: we don't compute CRC here.
-			// Keys are marked when scanned over and next instance of the reader will skip those.
+			// Keys are marked once the chunk is uploaded and next instance of the reader will skip those.
 			if err := indexStore.Put(ctx, indexFile, dbReader, storage.NoOverWrite); err != nil {
+				return err
+			}
+
+			if err := dbReader.MarkUploaded(); err != nil {
 				return err
 			}
 
@@ -1143,6 +1147,7 @@ type dbReader struct {
 	logger    *zap.Logger
 	partial   []byte
 	maxKeys   uint64
+	read      [][]byte
 }
 
 func newDBReader(ctx context.Context, db kvStore, indexTime time.Time, logger *zap.Logger, maxKeys uint64) *dbReader {
@@ -1246,10 +1251,9 @@ func (r *dbReader) Read(p []byte) (int, error) {
 			b = key
 			b = append(b, '\n') // add newline to separate keys
 
-			// mark key as read in the DB
-			if err := r.db.Set(key, []byte("X")); err != nil {
-				return 0, fmt.Errorf("failed to mark KV key as read: %w", err)
-			}
+			// remember the key: it is marked as uploaded in the DB only when the chunk is eventually written
+			// (a failed upload is retried with a new reader, which must not skip the keys of this one)
+			r.read = append(r.read, key)
 
 			r.count++
 		}
@@ -1263,6 +1267,21 @@ func (r *dbReader) Read(p []byte) (int, error) {
 	copy(p, b)
 
 	return len(b), nil
+}
+
+// MarkUploaded marks all the keys delivered by this reader as uploaded in the DB.
+func (r *dbReader) MarkUploaded() error {
+	r.mx.Lock()
+	defer r.mx.Unlock()
+
+	for _, key := range r.read {
+		if err := r.db.Set(key, []byte("X")); err != nil {
+			return fmt.Errorf("failed to mark KV key as uploaded: %w", err)
+		}
+	}
+	r.read = nil
+
+	return nil
 }
 
 func (r *dbReader) Close() error {
